@@ -16,10 +16,19 @@ async def do_validate(sim, request):
     from ahbicht.validation.validation import validate_deep_anwendungshandbuch, validate_segment_level
 
     op = request["op"]
+    shared = getattr(sim, "objects", None)
+    if shared is None:
+        shared = sim.objects = {}
     if op["entry"] == "deep":
-        results = await validate_deep_anwendungshandbuch(build_ahb(op["ahb"]), soll_is_required=op["soll"])
+        deep_ahb = build_ahb(op["ahb"])
+        if op.get("same_objects"):  # a caller validating the very same object graph again (with other data)
+            deep_ahb = shared.setdefault("deep", deep_ahb)
+        results = await validate_deep_anwendungshandbuch(deep_ahb, soll_is_required=op["soll"])
     else:
-        results = await validate_segment_level(build_node(op["ahb"]["lines"][0]), soll_is_required=op["soll"])
+        node = build_node(op["ahb"]["lines"][0])
+        if op.get("same_objects"):
+            node = shared.setdefault("level", node)
+        results = await validate_segment_level(node, soll_is_required=op["soll"])
     return list(results)
 
 
